@@ -50,69 +50,80 @@ class Plan(object):
         self.posts.append(fn)
 
     # ------------------------------------------------------------------------------------------------------
-    def orders(self, mode='canonical'):
-        """Dependency-respecting declaration orders (indices into self.decls)."""
+    def orders(self, mode='canonical', limit=500):
+        """Dependency-respecting declaration orders (lists of indices into self.decls). Countries (and the external
+        sector) keep their canonical relative order and come first; the sector declarations are permuted."""
         n = len(self.decls)
-        idx = {d.key: i for i, d in enumerate(self.decls)}
-
-        def ok(order):
-            seen = set()
-            for i in order:
-                d = self.decls[i]
-                for nd in d.needs:
-                    if nd not in seen:
-                        return False
-                if d.group is not None and d.group not in seen:
-                    return False
-                seen.add(d.key)
-            return True
         canon = list(range(n))
         if mode == 'canonical':
             return [canon]
-        out = [canon]
+        countries = [i for i in canon if self.decls[i].kind in ('country', 'external')]
+        sectors = [i for i in canon if i not in countries]
+        ckeys = {self.decls[i].key for i in countries}
+
+        def ok(seq):
+            seen = set(ckeys)
+            for i in seq:
+                d = self.decls[i]
+                if any(nd not in seen for nd in d.needs):
+                    return False
+                seen.add(d.key)
+            return True
 
         def topo(pref):
-            # greedy topological order following a preference list of indices
             left = list(pref)
-            order = []
-            seen = set()
+            seq = []
+            seen = set(ckeys)
             while left:
                 for i in left:
                     d = self.decls[i]
-                    if all(nd in seen for nd in d.needs) and (d.group is None or d.group in seen):
-                        order.append(i)
+                    if all(nd in seen for nd in d.needs):
+                        seq.append(i)
                         seen.add(d.key)
                         left.remove(i)
                         break
                 else:
                     raise ValueError('cyclic needs')
-            return order
-        # reverse, markets-first, flows-first
-        out.append(topo(list(reversed(canon))))
-        mk = [i for i in canon if self.decls[i].kind == 'market']
-        fl = [i for i in canon if self.decls[i].kind == 'flow']
-        out.append(topo(mk + [i for i in canon if i not in mk]))
-        out.append(topo(fl + [i for i in canon if i not in fl]))
-        out.append(topo(list(reversed(mk)) + list(reversed([i for i in canon if i not in mk]))))
+            return seq
+        out = [canon, countries + sectors]
+        mk = [i for i in sectors if self.decls[i].kind == 'market']
+        fl = [i for i in sectors if self.decls[i].kind == 'flow']
+        out.append(countries + topo(list(reversed(sectors))))
+        out.append(countries + topo(mk + [i for i in sectors if i not in mk]))
+        out.append(countries + topo(fl + [i for i in sectors if i not in fl]))
+        out.append(countries + topo(list(reversed(mk)) + list(reversed([i for i in sectors if i not in mk]))))
+        out.append(countries + topo([i for i in sectors if i not in mk and i not in fl] + fl + mk))
         if mode in ('transpositions', 'all'):
-            for a in range(n - 1):
-                o = list(canon)
+            for a in range(len(sectors) - 1):
+                o = list(sectors)
                 o[a], o[a + 1] = o[a + 1], o[a]
                 if ok(o):
-                    out.append(o)
+                    out.append(countries + o)
         if mode == 'all':
-            # all permutations of sector declarations (countries fixed first), bounded by caller
-            countries = [i for i in canon if self.decls[i].kind in ('country', 'external')]
-            rest = [i for i in canon if i not in countries]
-            for perm in itertools.permutations(rest):
-                o = countries + list(perm)
-                if ok(o):
-                    out.append(o)
+            cnt = 0
+            if len(sectors) <= 7:
+                for perm in itertools.permutations(sectors):
+                    if ok(perm):
+                        out.append(countries + list(perm))
+            else:
+                # systematically spread: rotations and strided interleavings of the sector list
+                m = len(sectors)
+                for r in range(1, m):
+                    out.append(countries + topo(sectors[r:] + sectors[:r]))
+                for stride in range(2, min(m, 12)):
+                    pref = []
+                    for off in range(stride):
+                        pref += sectors[off::stride]
+                    out.append(countries + topo(pref))
+                    out.append(countries + topo(list(reversed(pref))))
         uniq = []
+        seen = set()
         for o in out:
-            if o not in uniq:
+            t = tuple(o)
+            if t not in seen:
+                seen.add(t)
                 uniq.append(o)
-        return uniq
+        return uniq[:limit]
 
 
 def build(plans, order=None, rename=None, maxtime=2):
